@@ -401,6 +401,36 @@ fn run_case(seed: u64, idx: u64, _tier: Tier, out: &mut CaseOut) {
     };
     insert_links(&mut doc, &mut st, false);
     let empties = st.empties;
+    // a link around two or more blocks (a "card"): one link, one reference, one entry
+    if rng.chance(1, 6) {
+        let plain_block = |n: &Node| match n {
+            Node::El(e) => {
+                matches!(e.tag.as_str(), "p" | "div" | "h1" | "h2" | "h3" | "h4" | "h5" | "h6")
+                    && !crate::ast::has_tag(std::slice::from_ref(n), "a")
+                    && !crate::ast::has_tag(std::slice::from_ref(n), "table")
+                    && !crate::ast::has_tag(std::slice::from_ref(n), "ul")
+                    && !crate::ast::has_tag(std::slice::from_ref(n), "ol")
+                    && !crate::ast::has_tag(std::slice::from_ref(n), "dl")
+                    && !crate::ast::has_tag(std::slice::from_ref(n), "pre")
+                    && !crate::ast::has_tag(std::slice::from_ref(n), "blockquote")
+            }
+            _ => false,
+        };
+        let mut i = 0;
+        while i + 1 < doc.len() {
+            if plain_block(&doc[i]) && plain_block(&doc[i + 1]) && rng.chance(1, 2) {
+                let mut j = i + 2;
+                while j < doc.len() && plain_block(&doc[j]) && rng.chance(1, 2) {
+                    j += 1;
+                }
+                let blocks: Vec<Node> = doc.drain(i..j).collect();
+                doc.insert(i, El::with("a", blocks).attr("href", "/777").node());
+                out.inc("links_around_blocks");
+                break;
+            }
+            i += 1;
+        }
+    }
     let input = if rng.chance(1, 2) {
         ser_canonical(&doc)
     } else {
